@@ -198,8 +198,13 @@ func Build(d Doc) (*Built, error) {
 }
 
 // twin: a second, independent tree built from the same abstract document (built once, on demand)
-func (b *Built) twin() (*Built, error) {
-	b.twinOnce.Do(func() { b.twinB, b.twinErr = Build(b.Doc) })
+func (b *Built) twin(d Doc) (*Built, error) {
+	b.twinOnce.Do(func() {
+		if len(d) == 0 {
+			d = b.Doc
+		}
+		b.twinB, b.twinErr = Build(d)
+	})
 	return b.twinB, b.twinErr
 }
 
